@@ -187,14 +187,42 @@ func calendarMain(args []string) error {
 			d32 := proto.ToDate32(t)
 			tw.Emit(map[string]any{"ev": "ToDate32", "c": c, "v": map[string]any{"days": int(d32)}, "back": civOf(d32.Time())})
 			if r.Intn(8) == 0 {
+				// every way a time gets into the column: Append, AppendArr, and through Array(T)
+				how := []string{"Append", "AppendArr", "Array.Append"}[r.Intn(3)]
 				var cd proto.ColDate32
 				var back time.Time
-				e := safeStr(func() { cd.Append(t); back = cd.Row(0).UTC() })
-				tw.Emit(map[string]any{"ev": "ColDate32", "c": c, "err": e, "back": civOf(back)})
+				e := safeStr(func() {
+					switch how {
+					case "Append":
+						cd.Append(t)
+						back = cd.Row(0).UTC()
+					case "AppendArr":
+						cd.AppendArr([]time.Time{t})
+						back = cd.Row(0).UTC()
+					default:
+						a := cd.Array()
+						a.Append([]time.Time{t})
+						back = a.Row(0)[0].UTC()
+					}
+				})
+				tw.Emit(map[string]any{"ev": "ColDate32", "how": how, "c": c, "err": e, "back": civOf(back)})
 				if day >= 0 && day <= 65535 {
 					var c16 proto.ColDate
-					e := safeStr(func() { c16.Append(t); back = c16.Row(0).UTC() })
-					tw.Emit(map[string]any{"ev": "ColDate", "c": c, "err": e, "back": civOf(back)})
+					e := safeStr(func() {
+						switch how {
+						case "Append":
+							c16.Append(t)
+							back = c16.Row(0).UTC()
+						case "AppendArr":
+							c16.AppendArr([]time.Time{t})
+							back = c16.Row(0).UTC()
+						default:
+							a := c16.Array()
+							a.Append([]time.Time{t})
+							back = a.Row(0)[0].UTC()
+						}
+					})
+					tw.Emit(map[string]any{"ev": "ColDate", "how": how, "c": c, "err": e, "back": civOf(back)})
 				}
 			}
 		}
@@ -247,8 +275,22 @@ func calendarMain(args []string) error {
 		if i%8 == 0 {
 			col := proto.ColDateTime{Location: time.FixedZone("", calZones[r.Intn(len(calZones))])}
 			var back time.Time
-			e := safeStr(func() { col.Append(t); back = col.Row(0) })
-			tw.Emit(map[string]any{"ev": "ColInstant", "c": c, "p": -1, "err": e, "back": civOf(back)})
+			how := []string{"Append", "AppendArr", "Array.Append"}[r.Intn(3)]
+			e := safeStr(func() {
+				switch how {
+				case "Append":
+					col.Append(t)
+					back = col.Row(0)
+				case "AppendArr":
+					col.AppendArr([]time.Time{t})
+					back = col.Row(0)
+				default:
+					a := col.Array()
+					a.Append([]time.Time{t})
+					back = a.Row(0)[0]
+				}
+			})
+			tw.Emit(map[string]any{"ev": "ColInstant", "how": how, "c": c, "p": -1, "err": e, "back": civOf(back)})
 		}
 	}
 	// (3) DateTime64 at every precision: the ends of the documented range, the epoch, the ends of what 64-bit
@@ -282,8 +324,26 @@ func calendarMain(args []string) error {
 			tw.Emit(map[string]any{"ev": "ToDateTime64", "c": c, "p": p, "v": splitTicks(int64(v), p), "back": civOf(back)})
 			if i%4 == 0 {
 				col := new(proto.ColDateTime64).WithPrecision(proto.Precision(p)).WithLocation(time.FixedZone("", calZones[r.Intn(len(calZones))]))
-				e := safeStr(func() { col.Append(t); back = col.Row(0) })
-				tw.Emit(map[string]any{"ev": "ColInstant", "c": c, "p": p, "err": e, "back": civOf(back)})
+				how := []string{"Append", "AppendArr", "Array.Append", "Array.AppendArr"}[(i/4)%4]
+				e := safeStr(func() {
+					switch how {
+					case "Append":
+						col.Append(t)
+						back = col.Row(0)
+					case "AppendArr":
+						col.AppendArr([]time.Time{t})
+						back = col.Row(0)
+					case "Array.Append":
+						a := col.Array()
+						a.Append([]time.Time{t})
+						back = a.Row(0)[0]
+					default:
+						a := col.Array()
+						a.AppendArr([][]time.Time{{t}})
+						back = a.Row(0)[0]
+					}
+				})
+				tw.Emit(map[string]any{"ev": "ColInstant", "how": how, "c": c, "p": p, "err": e, "back": civOf(back)})
 			}
 			if i%3 == 0 {
 				// a raw value (as a server sends it) to a time
